@@ -36,8 +36,10 @@ func (handler AcraBlockHandler) ID() byte {
 
 // MatchDataSignature implementation of ContainerHandler method
 func (handler AcraBlockHandler) MatchDataSignature(bytes []byte) bool {
-	_, _, err := acrablock.ExtractAcraBlockFromData(bytes)
-	return err == nil
+	// the data is "already an AcraBlock" only if the block spans all of it: a value that merely starts with one
+	// (an embedded AcraBlock followed by other bytes) is ordinary plaintext
+	n, _, err := acrablock.ExtractAcraBlockFromData(bytes)
+	return err == nil && n == len(bytes)
 }
 
 // Decrypt implementation of ContainerHandler method
@@ -72,7 +74,7 @@ func (handler AcraBlockHandler) Decrypt(data []byte, context *base.DataProcessor
 // EncryptWithClientID implementation of ContainerHandler method
 func (handler AcraBlockHandler) EncryptWithClientID(clientID, data []byte, context *encryptor.DataEncryptorContext) ([]byte, error) {
 	// skip already encrypted AcraBlock
-	if _, _, err := acrablock.ExtractAcraBlockFromData(data); err == nil {
+	if handler.MatchDataSignature(data) {
 		return data, nil
 	}
 	key, err := context.Keystore.GetClientIDSymmetricKey(clientID)
